@@ -133,13 +133,16 @@ HEXD = "0123456789abcdefABCDEF"
 COLOR_ALPHA = "#+-_ 0aFx" + chr(0x661)  # (U+0661 ARABIC-INDIC DIGIT ONE: a digit for str.isalnum() and int(), not a hex digit of the schema)
 
 
-def color_decode_form(s: str) -> bool:
+def color_decode_form(p: str, q: str) -> bool:
     """
-    pre: len(s) == 7 and all(c in COLOR_ALPHA for c in s)
+    pre: len(p) == 2 and len(q) == 2 and all(c in COLOR_ALPHA for c in p + q)
     post: _
     """
-    # hex2rgb decodes exactly the strings of the form #RRGGBB (hex digits of the schema) and rejects the rest
+    # hex2rgb decodes exactly the strings of the form #RRGGBB (hex digits of the schema) and rejects the
+    # rest; the string is p + "0aF" + q: first character, one digit of the red channel and the whole blue
+    # channel are symbolic
     from odfdo.utils.color import hex2rgb
+    s = p + "0aF" + q
     valid = s[0] == "#" and all(c in HEXD for c in s[1:])
     try:
         r, g, b = hex2rgb(s)
